@@ -95,9 +95,10 @@ def c10_harness():
     class IdBatchDataset(KDDataset):
         """sample k: image = k-th unit vector in channel space (C = B), label = row y0[k]; always fresh objects"""
 
-        def __init__(self, B, H, W, y0, onehot, scalar_kind):
+        def __init__(self, B, H, W, y0, onehot, scalar_kind, ldtype="float32"):
             super().__init__()
             self.B, self.H, self.W, self.y0, self.onehot, self.scalar_kind = B, H, W, y0, onehot, scalar_kind
+            self.ldtype = getattr(torch, ldtype)  # one-hot / soft labels also come as int64 (F.one_hot) or float64
 
         def __len__(self):
             return self.B
@@ -110,7 +111,7 @@ def c10_harness():
         def getitem_class(self, idx, ctx=None):
             row = self.y0[int(idx)]
             if self.onehot:
-                return torch.tensor(row, dtype=torch.float32)
+                return torch.tensor(row, dtype=self.ldtype)
             if self.scalar_kind == "int":
                 return int(row[0])
             return torch.tensor(float(row[0]))
@@ -166,7 +167,8 @@ def c10_record(c, Dataset):
     from kappadata.wrappers import ModeWrapper
     ev = []
     items = c["mode"].split(" ")
-    ds = ModeWrapper(Dataset(c["B"], c["H"], c["W"], c["y0"], c["onehot"], c["scalar"]), mode=c["mode"],
+    ds = ModeWrapper(Dataset(c["B"], c["H"], c["W"], c["y0"], c["onehot"], c["scalar"], c.get("ldtype", "float32")),
+                     mode=c["mode"],
                      return_ctx=c["rc"])
     col, err = guarded(lambda: c10_build(c))
     if err:
@@ -234,13 +236,15 @@ def c10_cfg(r, B, H, W, apply, lamb, shuffle, split, kind, seed, K=None, mode=No
     ma, ca = alphas or (0.8, 1.0)
     return dict(B=B, H=H, W=W, K=K, onehot=onehot, lamb=lamb, shuffle=shuffle, S=S, Tol=TOL, y0=y0,
                 apply=apply, split=split, mixup_p=mixup_p, cutmix_p=cutmix_p, mixup_alpha=ma, cutmix_alpha=ca,
-                mode=mode or "x class", rc=rc, ctor=ctor, seed=seed, nb=nb, labels=kind, scalar=r.choice(["int", "t0"]))
+                mode=mode or "x class", rc=rc, ctor=ctor, seed=seed, nb=nb, labels=kind, scalar=r.choice(["int", "t0"]),
+                ldtype=r.choice(["float32", "float32", "int64", "float64"]) if onehot else "float32")
 
 
 def c10_key(c):
     return (f"{c['ctor']}:seed={c['seed']},B={c['B']},H={c['H']},W={c['W']},apply={c['apply']},lamb={c['lamb']},"
             f"shuffle={c['shuffle']},mixup_p={c['mixup_p']:g},cutmix_p={c['cutmix_p']:g},"
-            f"alphas={c['mixup_alpha']:g}/{c['cutmix_alpha']:g},labels={c['labels']}{c['K']},"
+            f"alphas={c['mixup_alpha']:g}/{c['cutmix_alpha']:g},labels={c['labels']}{c['K']}"
+            f"{'' if c.get('ldtype', 'float32') == 'float32' else ':' + c['ldtype']},"
             f"mode={c['mode'].replace(' ', '+')},ctx={int(c['rc'])}")
 
 
@@ -594,14 +598,15 @@ def c11_generate(tier, seed):
     for N, nd, unify, mp, alpha, seeded in itertools.product(
             (1, 2, 3, 4), (1, 2, 3), (False, True), (0.3, 1.0), (0.2, 1.0, 5.0), (False, True)):
         for s in range(2 if quick else 8):
-            cfgs.append(c11_cfg(r, N, r.randint(2, max(2, N)), nd, unify, mp, None, alpha, seeded, r.randrange(10 ** 6),
-                                reps=1))
+            cfgs.append(c11_cfg(r, N, r.randint(2, max(2, N)), nd, unify, mp, None, alpha, seeded,
+                                0 if s == 0 else r.randrange(10 ** 6), reps=1))
     # seeded random larger datasets
     for n in range(400 if quick else 5000):
         N = r.randint(2, 14 if quick else 20)
         nd = r.choice([1, 2, 2, 3, 3])
         cfgs.append(c11_cfg(r, N, r.randint(2, 10), nd, r.random() < 0.7, r.choice([0.3, 0.5, 1.0, 1.0]), None,
-                            r.choice([0.2, 0.8, 1.0, 5.0]), r.random() < 0.7, r.randrange(10 ** 6),
+                            r.choice([0.2, 0.8, 1.0, 5.0]), r.random() < 0.7,
+                            r.choice([0, 1, r.randrange(10 ** 6), r.randrange(10 ** 6)]),
                             reps=r.choice([1, 1, 2]), nshapes=r.choice([2, 2, 3])))
     # configurations with a cutmix probability: a cutmix draw must refuse explicitly, everything else as usual
     for n in range(120 if quick else 800):
